@@ -41,12 +41,27 @@ class DispatchingRequestHandler(BaseHTTPRequestHandler):
     def get_first_path_element(self):
         parsed_path = urlparse(self.path)
         path_elements = parsed_path.path.split('/')
-        if len(path_elements[0]) > 0:
+        if len(path_elements[0]) > 0 or len(path_elements) == 1:
             return path_elements[0]
         return path_elements[1]
 
+    def _send_plain_response(self, http_status: int, http_reason: str):
+        """Send a response without content."""
+        self.send_response(http_status, ' '.join(http_reason.split()))  # reason must not contain line breaks
+        self.send_header("Content-type", "text/plain; charset=utf-8")
+        self.send_header("Content-length", "0")
+        self.end_headers()
+
     def do_POST(self):  # pylint: disable=invalid-name
-        request_bytes = self._read_request()
+        try:
+            request_bytes = self._read_request()
+        except Exception as ex:
+            # The body could not be read (broken chunking, content-length or content-encoding).
+            # The position in the input stream is undefined now, close this connection after the response.
+            self.server.logger.error('could not read request {} from {}: {}', self.path, self.client_address, ex)
+            self.close_connection = True  # pylint: disable=attribute-defined-outside-init
+            self._send_plain_response(400, str(ex))
+            return
         if self.server.dispatcher is None:
             # close this connection
             self.close_connection = True  # pylint: disable=attribute-defined-outside-init
@@ -102,15 +117,24 @@ class DispatchingRequestHandler(BaseHTTPRequestHandler):
         if self.server.dispatcher is None:
             # close this connection
             self.close_connection = True  # pylint: disable=attribute-defined-outside-init
-            response_xml_string = 'received a POST request, but have no dispatcher'
-            self.send_response(404, response_xml_string)  # not found
+            self._send_plain_response(404, 'received a GET request, but have no dispatcher')  # not found
             return
 
-        component = self.server.dispatcher.get_instance(self.get_first_path_element())
+        try:
+            component = self.server.dispatcher.get_instance(self.get_first_path_element())
+        except InvalidPathError as ex:
+            self.server.logger.error('invalid path {} (request from {}): {}', self.path, self.client_address, ex.reason)
+            self._send_plain_response(ex.status, ex.reason)
+            return
 
         peer_name = self.connection.getpeername()
-        result = component.do_get(self.headers, self.path, peer_name)
-        http_status, http_reason, response_xml_string, content_type = result
+        try:
+            result = component.do_get(self.headers, self.path, peer_name)
+            http_status, http_reason, response_xml_string, content_type = result
+        except Exception as ex:
+            self.server.logger.error('exception (request {} from {}): {}', self.path, self.client_address, ex)
+            self._send_plain_response(500, str(ex))
+            return
 
         self.send_response(http_status, http_reason)
         response_xml_string = self._compress_if_supported(response_xml_string)
